@@ -254,6 +254,29 @@ func (t *ty) modelled() bool {
 	return true
 }
 
+// jtOK mirrors Uniflow.Codec.jtOK (Proofs/CodecJSONFull.lean): the static-type condition under which the JSON round
+// trip is *proved* – an omitempty field whose type contains `any` is itself an any, a pointer, a slice or a map.
+// Types outside it are covered by the correspondence check only; the harness counts them.
+func (t *ty) jtOK() bool {
+	switch t.k {
+	case "ptr", "slice", "arr", "map":
+		return t.el.jtOK()
+	case "struct":
+		for _, f := range t.fs {
+			if f.mode == 'x' {
+				continue
+			}
+			if f.mode == 'o' && !f.t.closed() && f.t.k != "any" && f.t.k != "ptr" && f.t.k != "slice" && f.t.k != "map" {
+				return false
+			}
+			if !f.t.jtOK() {
+				return false
+			}
+		}
+	}
+	return true
+}
+
 func (t *ty) has(k string) bool {
 	if t.k == k {
 		return true
